@@ -270,7 +270,9 @@ func runC11(c *fw.Ctx) {
 			cl.mx.Lock()
 			for _, u := range cl.untils {
 				// only default (clock-derived) untils can differ; explicit ones are equal by construction
-				if !u.Equal(cl.untils[0]) {
+				if !u.Equal(cl.untils[0]) || !u.Equal(local.Until) {
+					// (a partition that derived its window after a period boundary the local plan had not yet
+					// passed answers for a different window although leader and local plan agree)
 					same = false
 				}
 			}
@@ -343,7 +345,12 @@ func runC11(c *fw.Ctx) {
 					a := tupleOf(local, &local.Rows[i], keys)
 					b := tupleOf(dist, &dist.Rows[i], keys)
 					if a != b {
-						c.ViolateData("c11-order-differs", data, "%q: row %d has key tuple (%s) locally and (%s) in the cluster", sql, i, a, b)
+						osig := "c11-order-differs"
+						if strings.Contains(sql, " GROUP BY _") && strings.Contains(sql, "CROSSTAB") {
+							// same known finding as for unordered results: the leader's "_" picks up the crosstab key
+							osig = "c11-rows-differ:underscore-with-crosstab"
+						}
+						c.ViolateData(osig, data, "%q: row %d has key tuple (%s) locally and (%s) in the cluster", sql, i, a, b)
 						break
 					}
 				}
